@@ -6,7 +6,7 @@ from vlib import run, ENV
 BACKENDS = [("c", "stub"), ("c", "skel"), ("cpp", "stub"), ("cpp", "skel"), ("rust", "both"), ("java", "both")]
 
 
-def idlc_run(idlc, main, out, lang="c", skel=False, idirs=(), extra=(), cwd=None, timeout=60):
+def idlc_run(idlc, main, out, lang="c", skel=False, idirs=(), extra=(), cwd=None, timeout=60, env=None):
     cmd = [idlc, main, "-o", out]
     if lang != "c":
         cmd.append("--" + lang)
@@ -15,7 +15,7 @@ def idlc_run(idlc, main, out, lang="c", skel=False, idirs=(), extra=(), cwd=None
     for d in idirs:
         cmd += ["-I", d]
     cmd += list(extra)
-    return run(cmd, timeout=timeout, cwd=cwd)
+    return run(cmd, timeout=timeout, cwd=cwd, env=env)
 
 
 def emit_all(idlc, root, paths, main, idirs=(), extra=(), langs=("c", "cpp", "rust", "java")):
